@@ -2,9 +2,11 @@
 # Build the harness offline from files on disk and validate the reference model.
 set -e
 export CARGO_NET_OFFLINE=true
-mkdir -p /verif/build /verif/evidence /verif/replays
-cd /verif/harness
+ROOT=$(cd "$(dirname "$0")" && pwd)
+export CARGO_TARGET_DIR="$ROOT/build/target"
+mkdir -p "$ROOT/build" "$ROOT/evidence" "$ROOT/replays"
+cd "$ROOT/harness"
 cargo build --release --offline -p tvc
 cargo build --release --offline -p tvc-sched
-/verif/build/target/release/tvc selftest
+"$ROOT/build/target/release/tvc" selftest
 echo "setup ok"
